@@ -171,8 +171,10 @@ impl<S: Clone + Debug> SymbolTable<S> {
     }
 
     pub fn parent(&self, nx: SymbolIndex) -> Option<SymbolIndex> {
-        let mut edges = self.graph.edges_directed(nx, Direction::Incoming);
-        edges.next().map(|edge| edge.source())
+        // A symbol that was exported into other scopes (e.g. by an import) has several incoming edges. The edges
+        // are iterated newest-first, and the oldest one is the scope the symbol was defined in.
+        let edges = self.graph.edges_directed(nx, Direction::Incoming);
+        edges.last().map(|edge| edge.source())
     }
 
     pub fn child(&self, nx: SymbolIndex, id: &Identifier) -> Option<SymbolIndex> {
